@@ -269,7 +269,7 @@ class Group:
             args = [v for v, _ in combo]
             if self.as_range:
                 args = [rng(args[0], args[1])]
-            yield Probe(self.fn, self.recv, args, self.prefix + tuple(l for _, l in combo), self.extra)
+            yield Probe(self.fn, self.recv, args, self.prefix + tuple(l for _, l in combo if l is not None), self.extra)
 
 
 def one(fn, recv, args, shape, extra=0):
@@ -424,6 +424,8 @@ def valid_kind(b):
 # running
 
 MARK, EMARK = b"@@probe", b"!!error"
+REDO_MAX = 400          # programs that did not finish are re-run probe by probe (at most this many programs)
+UNKNOWN = "ABNORMAL:a probe sharing its program crashed it (not re-run individually)"
 STOP_RE = re.compile(rb"<StopIter instance @ 0x[0-9a-f]+>")
 
 
@@ -492,7 +494,7 @@ def run_impl(binary, probes, per_program=60):
         else:
             out.extend(res[0])
             printed.update(res[1])
-    for base, g in redo[:40]:
+    for base, g in redo[:REDO_MAX]:
         recs1 = yvlib.run_harness(binary, ["run - " + hx(p.snippet()) for p in g], case_timeout_ms=10000)
         for k, (p, r) in enumerate(zip(g, recs1)):
             res = parse_program_output(r, 1)
@@ -504,9 +506,9 @@ def run_impl(binary, probes, per_program=60):
             else:
                 out[base + k] = res[0][0]
                 printed.update(res[1])
-    for base, g in redo[40:]:
+    for base, g in redo[REDO_MAX:]:
         for k in range(len(g)):
-            out[base + k] = Out("ABNORMAL:program did not finish (not re-run individually)", b"ABNORMAL\x00")
+            out[base + k] = Out(UNKNOWN, b"ABNORMAL\x00")
     return out, printed
 
 
@@ -631,6 +633,10 @@ def check(ctx, groups, tag):
     if n_mdiff:
         ctx.broken.append("M != S on %d probes (contradicts the refinement theorems)" % n_mdiff)
     # classify the differing probes: impl != S is a violation, impl == S but != M a broken correspondence
+    unknown = sum(1 for i, _, _ in diffs if impl[i].text == UNKNOWN)
+    if unknown:
+        ctx.notes.append("%d probes were not re-run individually after their program crashed; they are not counted as failing" % unknown)
+    diffs = [d for d in diffs if impl[d[0]].text != UNKNOWN]
     viol = [(i, dm, ds) for i, dm, ds in diffs if impl[i].digest() != ds]
     corr = [(i, dm, ds) for i, dm, ds in diffs if impl[i].digest() == ds]
     viol.sort(key=lambda d: (len(probes[d[0]].body()), probes[d[0]].body()))
